@@ -77,11 +77,16 @@ package polynomial
 //@   allocates
 //@   ensures result1 == nil ==> (result0 != nil && fresh(result0) && expok(result0))
 //@   loop 1: invariant summed != nil && each(summed.coefficients, c, c != nil) && fresh(summed.coefficients)
+// polynomials of one shape (same length, same IsConstant) always add up: no error
+//@   loop 1: invariant len(summed.coefficients) == len(polynomials[0].coefficients) && summed.IsConstant == polynomials[0].IsConstant
+//@   ensures each(polynomials, q, len(q.coefficients) == len(polynomials[0].coefficients) && q.IsConstant == polynomials[0].IsConstant) ==> result1 == nil
 
 //@ func (*Polynomial).Evaluate
 //@   nopanic[C05]
 //@   requires p != nil && p.group != nil && index != nil && each(p.coefficients, c, c != nil)
-//@   panic_unreachable_under_requires
+// evaluating at zero would return the secret itself: the function panics; callers pass identifiers' scalars, which
+// round.NewSession guarantees to be non-zero
+//@   requires scval(index) != s_zero()
 //@   modifies nothing
 //@   allocates
 //@   ensures result != nil
